@@ -1103,7 +1103,7 @@ def explore_node(ctx, h, drv, n, nops, label):
 
 CHAIN_PROFILES = ["short", "long", "edge", "mixedlen", "compound", "short", "long", "mixedlen"]
 CHAIN_STEP = re.compile(r"^(put|putbig|del|cur \d+ set|cur \d+ del) ")
-CHAIN_POS = [1, 2, 8, 15, 16, 17, 17, 18, 19, 25, 31, 32, 0]
+CHAIN_POS = [1, 2, 8, 16, 17, 17, 17, 18, 19, 25, 31, 32, 0]
 
 
 def gen_chain_history(r, nbase, nrandom, profile, big=True):
@@ -1209,6 +1209,8 @@ def gen_chain_history(r, nbase, nrandom, profile, big=True):
             putbig(g)                                        # refused by size: must leave the full node as it is
             bigdone = True
         put(g, r.choice([None, None, 300, 700]))
+        if 1 <= p <= 31 and j > 0 and (j - 1) in full[t + 1:] and r.random() < 0.6:
+            put(nodes[j - 1][31] - r.randrange(1, 16))        # behind the last key of the full node in front: its upper neighbour (the lower half) has room now
         if r.random() < 0.5:                                  # and again into the same key range: the halves fill up and split again
             lo = nd[min(31, p + 2)] if p < 30 else nd[31] - 15
             hi = nd[max(0, p - 3)]
